@@ -306,7 +306,8 @@ OPERATORS = ["rename-field", "leaf-subselection", "composite-no-selection", "unk
              "dup-fragment", "fragment-on-scalar", "fragment-on-unknown", "unknown-spread", "cyclic-spread", "impossible-spread",
              "impossible-inline", "inline-on-unknown", "unknown-directive", "misplaced-directive", "repeated-directive",
              "bad-directive-arg", "dup-operation", "extra-anonymous", "subscription-two-roots", "undefined-variable-in-directive",
-             "inline-on-enum", "inline-on-input", "inline-on-scalar", "retarget-inline", "fragment-on-enum", "fragment-on-input"]
+             "inline-on-enum", "inline-on-input", "inline-on-scalar", "retarget-inline", "fragment-on-enum", "fragment-on-input",
+             "unreached-self-cycle", "unreached-mutual-cycle", "fault-behind-unreached-cycle"]
 
 
 def inject(doc, operator, site, disjoint_type="Lone", names=None):
@@ -427,6 +428,19 @@ def inject(doc, operator, site, disjoint_type="Lone", names=None):
         t = (names or {}).get(operator[len("fragment-on-"):])
         if not x or not t: return None
         x["on"], x["sel"] = t, [G.field("__typename")]
+    elif operator in ("unreached-self-cycle", "unreached-mutual-cycle", "fault-behind-unreached-cycle"):
+        # fragments that no operation reaches and that spread each other: nobody is a natural starting point for checking them
+        t = (names or {}).get("root")
+        if not t or site > 0: return None
+        if operator == "unreached-self-cycle":
+            d["defs"].append(G.frag("CycSelf", [G.field("__typename"), G.spread("CycSelf")], t))
+        elif operator == "unreached-mutual-cycle":
+            d["defs"].append(G.frag("CycA", [G.field("__typename"), G.spread("CycB")], t))
+            d["defs"].append(G.frag("CycB", [G.inline([G.spread("CycA")])], t))
+        else:
+            d["defs"].append(G.frag("CycA", [G.spread("CycB")], t))
+            d["defs"].append(G.frag("CycB", [G.spread("CycA"), G.spread("Behind")], t))
+            d["defs"].append(G.frag("Behind", [G.field("noSuchFieldBehindCycle")], t))
     elif operator == "unknown-directive":
         x = nth(dsites)
         if not x: return None
